@@ -364,7 +364,7 @@ PROPS = {
                             "C09_closedb_correct", "C09_exportedb_correct", "C09_private_member_class",
                             "C09_dangling_outside_known_class", "C09_closed_ambient_private_refuted"],
         "exhaustive": {"quick": True, "thorough": True},
-        "rule": ("four streams by case number. (lattice sequences) 6000 (quick) / 60000 (thorough) random cases through the "
+        "rule": ("four streams by case number. (lattice sequences) 2119 (quick) / 60000 (thorough) random cases through the "
                  "cfg-guarded hooks of /repo: NamedSubset operation sequences of 1-12 operations (from_parts, add, "
                  "add_qualified, add_named, extend) over the 5-name universe {default,a,b,prototype,c} with values of nesting "
                  "depth <= 3 and random key insertion order, batches of Exports::extend pairs, and ImportedExports::add "
